@@ -31,7 +31,7 @@ RULE = ("candidates: all 16 allow-flag combinations x gaussian reduction on/off 
 ASSUMPTIONS = ["a split component '<fw|wd|we>-<seasons>' owns the cells (season, day type) it names; fw = both day types",
                "a single-season component needs that season's allow flag; any wd/we component needs allow_separate_weekday_weekend",
                "ties in the selection criterion may resolve to any minimal candidate"]
-REQUIRED_REACH = {"routing.models_of_different_maps_alive_together": 40, "candidates.sets": 100, "candidates.checked": 1000, "candidates.nontrivial_sets": 30, "routing.models": 60, "routing.dates": 40000,
+REQUIRED_REACH = {"selection.model_object_reused": 3, "routing.models_of_different_maps_alive_together": 40, "candidates.sets": 100, "candidates.checked": 1000, "candidates.nontrivial_sets": 30, "routing.models": 60, "routing.dates": 40000,
                   "selection.fits": 3, "selection.candidates_logged": 10, "hook.trim_combinations": 50}
 SEASONS = ["su", "sh", "wi"]
 FULL = {"su": "summer", "sh": "shoulder", "wi": "winter"}
@@ -243,7 +243,20 @@ def routing_case(spec, keys):
 def selection_case(spec, keys):
     rng = rng_for(spec["seed"], ID, 3, spec["n"])
     del CRIT[:]
-    m, data, df = FT.fit_daily(rng, profile=spec["profile"], tz=spec["tz"], kind=spec["usage"], weekend=spec["weekend"], season=spec["season"], noise=0.05)
+    if spec.get("reused_model_object"):
+        # the model object was fitted on another meter before, with a very different error scale: the selection of the second fit is its own
+        import opendsm.eemeter as em
+        df = FT.daily_baseline_df(rng, tz=spec["tz"], kind=spec["usage"], weekend=spec["weekend"], season=spec["season"], noise=0.05)
+        df0 = FT.daily_baseline_df(rng, tz=spec["tz"], kind="both", weekend=0.0, season=0.0, noise=[0.4, 0.001][spec["n"] % 2])
+        df0["observed"] = df0["observed"] * [50.0, 0.02][spec["n"] % 2]
+        m = FT.make_daily_model(spec["profile"])
+        m.fit(em.DailyBaselineData(df0, is_electricity_data=True), ignore_disqualification=True)
+        del CRIT[:]
+        data = em.DailyBaselineData(df, is_electricity_data=True)
+        m = m.fit(data, ignore_disqualification=True)
+        I.reach("selection.model_object_reused")
+    else:
+        m, data, df = FT.fit_daily(rng, profile=spec["profile"], tz=spec["tz"], kind=spec["usage"], weekend=spec["weekend"], season=spec["season"], noise=0.05)
     I.reach("selection.fits")
     logged = {}
     for combo, c in CRIT:
@@ -322,6 +335,10 @@ def gen_cases(tier, seed):
     for i in range(nf):
         cases.append(dict(kind="selection", profile=["current", "custom-maps", "dev-nogauss", "legacy-dev-splits"][i % 4], tz=["America/Chicago", "UTC"][i % 2],
                           usage=["both", "heating", "cooling"][i % 3], weekend=[0.4, 0.0, 0.25][i % 3], season=[0.0, 0.3, 0.15][(i // 2) % 3], n=k, timeout=2400))
+        k += 1
+    for i in range(4 if q else 24):
+        cases.append(dict(kind="selection", profile=["current", "custom-maps", "dev-nogauss", "legacy-dev-splits"][i % 4], tz=["America/Chicago", "UTC"][i % 2],
+                          usage=["both", "heating", "cooling"][i % 3], weekend=[0.4, 0.25][i % 2], season=[0.0, 0.3][(i // 2) % 2], n=k, timeout=2400, reused_model_object=True))
         k += 1
     return cases
 
